@@ -878,6 +878,23 @@ impl<'a, 't> Gen<'a, 't> {
             kids.push(Node::Block { indent: indent.to_string(), open_lead: "{ ".into(), elem, open_trail: String::new(), kids: inner, close_indent: indent.to_string(), close_lead: String::new(), close_trail: " }".into() });
             return kids;
         }
+        if self.o.tags_on_wrappers && self.o.join_pct > 0 && body >= 2 && self.t.chance(self.o.straddle_pct / 2 + 1) {
+            // both wrapper lines carry a straddling child, and the two children meet on ONE inner line:
+            // `w <c1>` / … / `</c1> mid <c2>` / … / `</c2> w`
+            let c1 = self.elem(false);
+            let c2 = self.elem(false);
+            let n1 = self.t.below(2);
+            let in1 = self.nodes(level + 1, depth_left.saturating_sub(1), n1, true);
+            let n2 = self.t.below(2);
+            let in2 = self.nodes(level + 1, depth_left.saturating_sub(1), n2, true);
+            let w1 = self.t.s(&self.words).to_string();
+            let w2 = self.t.s(&self.words).to_string();
+            let mid = if self.t.chance(70) { format!(" {} ", self.word()) } else { String::new() };
+            kids.push(Node::Block { indent: indent.to_string(), open_lead: format!("{w1} "), elem: c1, open_trail: String::new(), kids: in1, close_indent: self.unit.repeat(level + 1), close_lead: String::new(), close_trail: mid });
+            kids.push(Node::Join(String::new()));
+            kids.push(Node::Block { indent: String::new(), open_lead: String::new(), elem: c2, open_trail: String::new(), kids: in2, close_indent: indent.to_string(), close_lead: String::new(), close_trail: format!(" {w2}") });
+            return kids;
+        }
         let straddle = if self.o.tags_on_wrappers && body >= 3 {
             let k = self.t.below(100);
             if k < self.o.straddle_pct {
